@@ -840,7 +840,7 @@ class Engine:
         import builtins as _b
         if isinstance(getattr(_b, n.id, None), type) and issubclass(getattr(_b, n.id), BaseException):
             return VLib("exc:" + n.id)
-        if n.id in ("len", "list", "float", "int", "zip", "enumerate", "range", "abs", "isinstance", "tuple", "max", "min", "dict"):
+        if n.id in ("len", "list", "float", "int", "zip", "enumerate", "range", "abs", "isinstance", "tuple", "max", "min", "dict", "str", "bool", "object", "set", "callable"):
             return VLib(n.id)
         if n.id in self.repo.classes:
             return VLib("class:" + n.id)
@@ -890,10 +890,27 @@ class Engine:
     def ev_ListComp(self, n, st):
         if ast.unparse(n) in getattr(self, "comp_models", {}):       # table-driven model of one specific comprehension (listed as trusted)
             return self.comp_models[ast.unparse(n)](self, st, n)
-        if len(n.generators) != 1 or n.generators[0].ifs:
+        if len(n.generators) != 1:
             raise Unsupported("comprehension " + ast.unparse(n))
         g = n.generators[0]
         it = self.ev(g.iter, st)
+        if g.ifs:
+            if not isinstance(it, VTuple):
+                raise Unsupported("filtered comprehension over a non-concrete iterable " + ast.unparse(n))
+            out = []
+            saved = dict(st.locals)
+            for item in it.items:
+                self.store(g.target, item, st)
+                keep = True
+                for cond in g.ifs:
+                    c_ = z3.simplify(self.truth(self.ev(cond, st)))
+                    if not (z3.is_true(c_) or z3.is_false(c_)):
+                        raise Unsupported("comprehension filter is not decided: " + ast.unparse(cond))
+                    keep = keep and z3.is_true(c_)
+                if keep:
+                    out.append(self.ev(n.elt, st))
+            st.locals = saved
+            return VTuple(out)
         if isinstance(it, (VSeq, VRefSeq, VSeqOf)):
             # [elt for x in seq] over a sequence of symbolic length, elt numeric and effect-free: evaluated once at an arbitrary position kk
             # (its obligations then hold for every position), the result is the array k -> elt[kk := k]
@@ -952,6 +969,10 @@ class Engine:
 
     def ev_Attribute(self, n, st):
         base = self.ev(n.value, st)
+        if hasattr(base, "vattr"):                 # small value classes defined by contract modules (duck protocol: vattr / vcall / vsub)
+            r_ = base.vattr(self, st, n.attr)
+            if r_ is not None:
+                return r_
         if isinstance(base, VLib) and base.name.startswith("class:"):
             cname = base.name[6:]
             for c in self.repo.mro(cname):           # class-level attribute (e.g. lookup tables) through the real MRO
@@ -961,7 +982,7 @@ class Engine:
             if self.repo.find(cname, n.attr)[1] is not None:
                 return VBound(base, n.attr)
             raise Unsupported("class attribute " + ast.unparse(n))
-        if isinstance(base, VDict) and n.attr in ("get", "pop", "setdefault", "keys", "values", "items"):
+        if isinstance(base, VDict) and n.attr in ("get", "pop", "setdefault", "keys", "values", "items", "copy", "update"):
             return VBound(base, n.attr)
         if isinstance(base, VStr) and n.attr in ("format", "join", "lower", "upper", "strip"):
             return VBound(base, n.attr)
@@ -1123,6 +1144,11 @@ class Engine:
             return self.mod_model(self, a, b)
         if isinstance(op, ast.Add) and isinstance(a, VTuple) and isinstance(b, VTuple):
             return VTuple(a.items + b.items)
+        is_empty_list = lambda v_: isinstance(v_, VSeq) and z3.is_int_value(z3.simplify(v_.len)) and z3.simplify(v_.len).as_long() == 0
+        if isinstance(op, ast.Add) and ((isinstance(a, VTuple) and is_empty_list(b)) or (is_empty_list(a) and isinstance(b, VTuple))):      # [] + python list
+            return VTuple(list(a.items if isinstance(a, VTuple) else b.items))
+        if isinstance(op, ast.Add) and is_empty_list(a) and is_empty_list(b):
+            return VTuple([])
         if isinstance(a, VPySet) and isinstance(b, VPySet) and isinstance(op, (ast.Sub, ast.BitOr, ast.BitAnd)):
             return VPySet(a.items - b.items if isinstance(op, ast.Sub) else a.items | b.items if isinstance(op, ast.BitOr) else a.items & b.items)
         if isinstance(op, ast.Add) and isinstance(a, VTuple) and isinstance(b, VRefSeq) and all(isinstance(x, VRef) for x in a.items):
@@ -1183,6 +1209,11 @@ class Engine:
                 continue
             if isinstance(op, (ast.In, ast.NotIn)) and isinstance(right, VTuple) and isinstance(left, VNum) and all(isinstance(q_, VNum) for q_ in right.items):
                 c = z3.Or([z3.BoolVal(False)] + [num_pair(left, q_)[0] == num_pair(left, q_)[1] for q_ in right.items])
+                conj.append(c if isinstance(op, ast.In) else z3.Not(c))
+                left = right
+                continue
+            if isinstance(op, (ast.In, ast.NotIn)) and isinstance(right, VDict) and isinstance(left, (VStr, VNum, VNone)):
+                c = z3.BoolVal(self.key_of(left) in right.d)
                 conj.append(c if isinstance(op, ast.In) else z3.Not(c))
                 left = right
                 continue
@@ -1288,6 +1319,10 @@ class Engine:
 
     def ev_Subscript(self, n, st):
         base = self.ev(n.value, st)
+        if hasattr(base, "vsub"):
+            r_ = base.vsub(self, st, n)
+            if r_ is not None:
+                return r_
         if getattr(self, "subscript_hook", None) is not None:       # contract-module model for an indexing form the core does not know (listed as trusted)
             r_ = self.subscript_hook(self, st, n, base)
             if r_ is not None:
@@ -1295,7 +1330,7 @@ class Engine:
         if isinstance(base, VDict):
             k = self.key_of(self.ev(n.slice, st))
             if k not in base.d:
-                raise Unsupported("KeyError path on concrete dict: " + str(k))
+                raise PyRaise("KeyError")
             return base.d[k]
         if isinstance(base, VRecord) and isinstance(n.slice, ast.Constant) and isinstance(n.slice.value, str):
             self.oblige("pre@not-None:" + ast.unparse(n)[:50], st, z3.Not(self.read_field(st, base.ref, base.field + ".#none").e))
@@ -1402,6 +1437,8 @@ class Engine:
             if f.name in self.lib:
                 return self.lib[f.name](self, st, args, kw, n)
             raise Unsupported("library call " + f.name)
+        if hasattr(f, "vcall"):
+            return f.vcall(self, st, args, kw)
         if isinstance(f, VLambda):
             return self.call_lambda(f, args, kw, st)
         if isinstance(f, VRef):
@@ -1479,6 +1516,15 @@ class Engine:
             return VOpaque(("ext", f.recv.name, f.name, len(f.recv.rec["calls"])))
         if isinstance(f, VBound) and isinstance(f.recv, VDict) and f.name in ("keys", "values", "items"):
             return VTuple([VStr(k_) if isinstance(k_, str) else VOpaque(k_) for k_ in f.recv.d] if f.name == "keys" else list(f.recv.d.values()) if f.name == "values" else [VTuple([VStr(k_), v_]) for k_, v_ in f.recv.d.items()])
+        if isinstance(f, VBound) and isinstance(f.recv, VDict) and f.name == "copy":
+            return VDict(dict(f.recv.d))         # shallow copy
+        if isinstance(f, VBound) and isinstance(f.recv, VDict) and f.name == "update":
+            for a_ in args:
+                if not isinstance(a_, VDict):
+                    raise Unsupported("dict.update with a non-concrete mapping")
+                f.recv.d.update(a_.d)
+            f.recv.d.update(kw)
+            return VNone()
         if isinstance(f, VBound) and isinstance(f.recv, VDict):
             k = self.key_of(args[0])
             dflt = args[1] if len(args) > 1 else VNone()
@@ -2089,6 +2135,10 @@ class Engine:
         """for x in <iterable>: body   ==   i=0; while i < len: x = item(i); body; i+=1   (ghost index '#i<k>').
         Concrete python lists/tuples (VTuple) are unrolled."""
         it = self.ev(n.iter, st)
+        if isinstance(it, VZip) and all(isinstance(p_, VTuple) for p_ in it.parts):       # zip of concrete python lists: unrolled
+            it = VTuple([VTuple(list(row)) for row in zip(*[p_.items for p_ in it.parts])])
+        if isinstance(it, VEnum) and isinstance(it.inner, VTuple):
+            it = VTuple([VTuple([VNum(z3.IntVal(q_)), x_]) for q_, x_ in enumerate(it.inner.items)])
         if isinstance(it, VPySet):
             it = VTuple([VStr(x) if isinstance(x, str) else VNum(z3.IntVal(x)) for x in sorted(it.items, key=str)])
         if isinstance(it, VTuple):
